@@ -1,4 +1,5 @@
 import DiffxVerif.Properties.C02
+import DiffxVerif.Properties.C02Closed
 import DiffxVerif.Properties.C02Doc
 #print axioms Diffx.C02.C02_header
 #print axioms Diffx.C02.C02_header_grammar
@@ -32,3 +33,4 @@ import DiffxVerif.Properties.C02Doc
 #print axioms Diffx.C02.C02_conforms_instance
 #print axioms Diffx.C02.C02_reading_instance
 #print axioms Diffx.C02.C02_read_back_instance
+#print axioms Diffx.C02.C02_conforms_closed
